@@ -89,6 +89,11 @@ def run(ctx):
     for c in rnd.sample(shallow, min(len(shallow), 500 if q else 12000)):
         extra.append(dict(c, style='raw'))
     odds = [{'p': 'False', 'q': 'tRue'}, {'p': 'True', 'q': 'x'}, {'p': 'None', 'q': 'Until'}, {'p': 'a', 'q': 'FALSE'}]
+    for lg, kind, leaf in (('CTL', 'state', P), ('LTL', 'path', P), ('CTLS', 'state', TR), ('CTLS', 'path', ('X', Q)), ('LTL', 'path', ('U', P, Q)),
+                           ('CTL', 'state', ('and', P, Q)), ('CTLS', 'state', ('E', ('F', P)))):
+        for k in range(0, 9):
+            for st in ('obj', 'raw'):
+                extra.append({'op': 'lnot', 'logic': lg, 'kind': kind, 'f': nots(leaf, k), 'style': st})
     for i, c in enumerate(rnd.sample(cases, min(len(cases), 400 if q else 8000))):
         odd = odds[i % len(odds)]
         extra.append(dict(c, f=rename(T(c['f']), odd), back={v: k for k, v in odd.items()}, style=rnd.choice(['obj', 'raw'])))
